@@ -946,6 +946,11 @@ fn root_cases(seed: u64, thorough: bool) -> Vec<Value> {
         let cwds: Vec<u64> = if thorough { vec![0, 1, 2] } else { vec![(k % 3) as u64] };
         for cwd in cwds {
             for kind in ["read", "write", "write_plain", "write_append", "ls", "grep", "bash", "task", "patch_add", "tool_patch_add", "ck_create", "ck_runner", "auto_write"] {
+                // a root-naming string with a doubled separator (`.//`) is one normalisation away from `/`: a tree walk
+                // from there (a mutated ls / grep) never comes back (/proc/kmsg blocks); the other eleven kinds carry it
+                if (kind == "ls" || kind == "grep") && names_root && raw.contains("//") {
+                    continue;
+                }
                 v.push(json!({"kind": kind, "raw": raw, "cwd": cwd}));
             }
         }
